@@ -21,7 +21,12 @@ func checkC02(c *Ctx) {
 	c.Rule("C02/R5", "loop progress: every scanning loop whose condition contains no call advances, on every path back to its head, a variable the condition reads")
 	c.Rule("C02/R6", "the key/value line recogniser applies exactly the documented predicates (lower-case first rune, no space or upper case in the key, ':' after position 0, blank or tab separated value) — and agrees with the legacy recogniser")
 
+	c.Rule("C02/R7", "measurements: the integer fast path of the measurement parser is exact (same rule as C03/R2: digits only, the accumulator guarded so that the multiply-add cannot overflow, everything else handed to the full parser)")
+	c.Rule("C02/R8", "file labels: in Files.init an input is counted towards 'same path given more than once' exactly when it carries no explicit label, which is exactly the set of inputs the disambiguation loop may relabel; a labelled input keeps the user's label")
+
 	p := mustLoad(c, loadOpts{}, "./benchfmt", "./storage/benchfmt")
+	c03FastFloat(c, p, "C02/R7")
+	c02Labels(c, p)
 	c02Clone(c, p)
 	c02Ownership(c, p)
 	c02Index(c, p)
@@ -654,4 +659,94 @@ func alwaysSelf(v ssa.Value, phi *ssa.Phi, d int) bool {
 		return true
 	}
 	return false
+}
+
+// ---- R8 ----
+
+func c02Labels(c *Ctx, p *Prog) {
+	const R = "C02/R8"
+	fn := p.Method("benchfmt", "Files", "init")
+	if fn == nil {
+		c.Undecided(R, "anchor:Files.init", "", "not found")
+		return
+	}
+	site := p.pos(fn.Pos())
+	n := 0
+	for _, lp := range naturalLoops(fn) {
+		start := loopBodyStart(lp)
+		if start == nil {
+			continue
+		}
+		// only the loop that builds the input list
+		builds := false
+		for b := range lp.Blocks {
+			for _, in := range b.Instrs {
+				if st, ok := in.(*ssa.Store); ok {
+					if f, _ := fieldOfAddr(st.Addr); f != nil && f.Name() == "isLabeled" {
+						builds = true
+					}
+				}
+			}
+		}
+		if !builds {
+			continue
+		}
+		mk := func() *e6Interp {
+			return &e6Interp{PureCall: func(f *types.Func) bool { return true }}
+		}
+		outs, why := e6Enumerate(mk, start, lp.Header, iterStop(lp, start), 64)
+		if why != "" {
+			c.Undecided(R, "Files.init:input-loop", site, why)
+			return
+		}
+		for _, o := range outs {
+			labelled, known := false, false
+			for k, v := range o.Mem {
+				if strings.HasSuffix(k, ".isLabeled") && v.isConst() {
+					if b, ok := v.boolConst(); ok {
+						labelled, known = b, true
+					}
+				}
+			}
+			if !known {
+				continue
+			}
+			counted := 0
+			for _, a := range o.Actions {
+				if a.Kind == "mapupdate" && !strings.Contains(a.Args[0].String(), "param:") {
+					counted++
+				}
+			}
+			n++
+			key := fmt.Sprintf("Files.init[labelled=%v]#%d", labelled, n)
+			c.Check((counted == 1) == !labelled, R, key, site, fmt.Sprintf("labelled=%v, counted towards duplicates=%v", labelled, counted == 1),
+				fmt.Sprintf("an input with explicit label=%v is counted %d times towards 'same path given more than once': a path given once plainly and once as label=path makes the plain one look duplicated (its results get .file \"path#0\"), or an unlabelled duplicate is not disambiguated (%s)", labelled, counted, o.AssignStr()))
+		}
+	}
+	c.Floor(R, "input-construction paths in Files.init", n, 2)
+	// the disambiguation loop skips labelled inputs: a store to an input's label in the second loop is dominated by a test of isLabeled
+	nDis := 0
+	eachInstr(fn, func(b *ssa.BasicBlock, in ssa.Instruction) {
+		st, ok := in.(*ssa.Store)
+		if !ok {
+			return
+		}
+		f, base := fieldOfAddr(st.Addr)
+		if f == nil || f.Name() != "label" {
+			return
+		}
+		if al, _ := allocRootOfAddr(st.Addr); al != nil {
+			return // building a new input
+		}
+		nDis++
+		guarded := false
+		for _, fc := range factsAt(b) {
+			if fl, base2 := loadOfField(fc.Cond); fl != nil && fl.Name() == "isLabeled" && sameValue(base, base2) && !fc.True {
+				guarded = true
+			}
+			// (isLabeled || count == 1) compiles to a chain: the isLabeled test appears as its own fact
+		}
+		c.Check(guarded, R, fmt.Sprintf("Files.init:relabel#%d", nDis), p.pos(st.Pos()), "relabelling happens only for inputs without an explicit label", "the disambiguation loop overwrites the label of an input whose label the user gave explicitly")
+	})
+	c.Floor(R, "relabelling stores in Files.init", nDis, 1)
 }
